@@ -44,6 +44,7 @@ class Pass:
         s.n = 0
         s.cuts = [re.compile(c) for c in cuts]
         s.forbid = [re.compile(c) for c in forbid]; s.forbid_names = []
+        s.zero = []; s.zero_names = []
         s.cut_names = []
         s.atomics = []     # (function, kind, order)
         s.fences = 0
@@ -137,6 +138,16 @@ class Pass:
     def run(s, text):
         for a, b in RENAME.items():
             text = re.sub(re.escape(a) + r'(?=[^-a-zA-Z$._0-9])', b, text)
+        # renaming can produce two declarations of one symbol: keep the first
+        seen_decl = set(); ded = []
+        for ln in text.split('\n'):
+            if ln.startswith('declare '):
+                m_ = re.search(r'(@"(?:[^"\\]|\\.)*"|@[-a-zA-Z$._0-9]+)\(', ln)
+                if m_:
+                    if m_.group(1) in seen_decl: continue
+                    seen_decl.add(m_.group(1))
+            ded.append(ln)
+        text = '\n'.join(ded)
         out = []; lines = text.split('\n'); i = 0; fn = None
         while i < len(lines):
             ln = lines[i]
@@ -147,6 +158,13 @@ class Pass:
                     # forbidden on the analysed path: reaching it is a violation (used for "no allocation / no formatting")
                     s.forbid_names.append(fn.strip('@"'))
                     out.append(re.sub(r'\s+personality .*\{$', ' {', ln)); out.append('  call void @vll_forbidden()'); out.append('  unreachable'); out.append('}')
+                    while lines[i] != '}': i += 1
+                    i += 1; fn = None; continue
+                if any(c.search(fn.strip('@"')) for c in s.zero):
+                    # stub: empty body returning a zero value (formatting / rendering that is not the subject of the property)
+                    s.zero_names.append(fn.strip('@"'))
+                    rty = re.match(r'define\s+(?:(?:linkonce_odr|weak_odr|internal|dso_local|hidden|noundef|nonnull|zeroext|signext|align \d+|dereferenceable\(\d+\)|dereferenceable_or_null\(\d+\)|noalias)\s+)*(.+?)\s+@', ln).group(1)
+                    out.append(re.sub(r'\s+personality .*\{$', ' {', ln)); out.append('  ret void' if rty == 'void' else '  ret %s zeroinitializer' % rty); out.append('}')
                     while lines[i] != '}': i += 1
                     i += 1; fn = None; continue
                 if s.is_cut(fn):
@@ -175,6 +193,7 @@ if __name__ == '__main__':
     forbid = [a[2:] for a in sys.argv[3:] if a.startswith('-f')]
     info = [a[2:] for a in sys.argv[3:] if a.startswith('-j')]
     p = Pass(cuts, forbid)
+    p.zero = [re.compile(a[2:]) for a in sys.argv[3:] if a.startswith('-z')]
     open(dst, 'w').write(p.run(open(src).read()))
     if info:
-        json.dump({'forbidden': p.forbid_names, 'cut': p.cut_names, 'atomics': p.atomics, 'fences': p.fences}, open(info[0], 'w'))
+        json.dump({'zero_stubs': p.zero_names, 'forbidden': p.forbid_names, 'cut': p.cut_names, 'atomics': p.atomics, 'fences': p.fences}, open(info[0], 'w'))
